@@ -183,6 +183,11 @@ Ltac crunch H := repeat (match type of H with
    | context [if ?x then _ else _] => let E := fresh "E" in destruct x eqn:E; try discriminate
    end).
 
+Ltac crunchv H := repeat (first [ progress (cbv iota beta in H) | discriminate H |
+   match type of H with
+   | context [match ?x with _ => _ end] => is_var x; destruct x
+   end ]).
+
 (* ------------------------------------------------------------------ Einsum expressions: soundness *)
 
 Lemma p_iterm_sound ts t r : okp ts = true -> p_iterm ts = Some (t, r) ->
@@ -534,3 +539,81 @@ Proof. apply (top_parse_print MPlain toks_einsum p_einsum wf_einsum good_einsum 
 Theorem eq_parse_sound s e : parse_eq s = Some e ->
   wf_einsum e = true /\ exists ws, blanks ws = true /\ List.length ws = S (List.length (toks_einsum e)) /\ s = print_eq e ws.
 Proof. apply (top_parse_sound MPlain toks_einsum p_einsum wf_einsum). exact p_einsum_sound. Qed.
+
+(* ------------------------------------------------------------------ partitioning directives *)
+
+Lemma p_dir_complete d : wf_dir d = true -> p_dir (toks_dir d) = Some d.
+Proof. intros _. destruct d as [[]|l []|[]| |l]; reflexivity. Qed.
+
+Lemma good_dir d : wf_dir d = true -> good MPlain (toks_dir d) = true.
+Proof.
+  destruct d as [[ds|x]|l [ds|x]|[ds|x]| |l]; simpl; intros H; bsplit; unfold good; simpl;
+    repeat match goal with E : _ = true |- _ => rewrite E; clear E end; reflexivity.
+Qed.
+
+Lemma p_dir_sound ts d : forallb (tok_ok MPlain) ts = true -> p_dir ts = Some d -> ts = toks_dir d /\ wf_dir d = true.
+Proof.
+  intros Hok H. unfold p_dir in H.
+  destruct ts as [|t r]; [discriminate|]. destruct t as [| |k| | |]; try discriminate.
+  unfold option_map, p_size in H.
+  destruct (String.eqb_spec k "nway_shape"); [subst k|
+  destruct (String.eqb_spec k "uniform_occupancy"); [subst k|
+  destruct (String.eqb_spec k "uniform_shape"); [subst k|
+  destruct (String.eqb_spec k "flatten"); [subst k|
+  destruct (String.eqb_spec k "follow"); [subst k|discriminate]]]]];
+  crunchv H; inversion H; subst; simpl in Hok; bsplit; (split; [reflexivity|simpl; bsplit; auto]).
+Qed.
+
+Theorem dir_parse_print d ws : wf_dir d = true -> blanks ws = true -> parse_dir (print_dir d ws) = Some d.
+Proof. apply (top_parse_print MPlain toks_dir p_dir wf_dir good_dir p_dir_complete). Qed.
+
+Theorem dir_parse_sound s d : parse_dir s = Some d ->
+  wf_dir d = true /\ exists ws, blanks ws = true /\ List.length ws = S (List.length (toks_dir d)) /\ s = print_dir d ws.
+Proof. apply (top_parse_sound MPlain toks_dir p_dir wf_dir). exact p_dir_sound. Qed.
+
+(* ------------------------------------------------------------------ spacetime stamps *)
+
+Lemma p_st_complete a : wf_st a = true -> p_st (toks_st a) = Some a.
+Proof. intros _. destruct a; reflexivity. Qed.
+
+Lemma good_st a : wf_st a = true -> good MDot (toks_st a) = true.
+Proof. destruct a; simpl; intros H; unfold good; simpl; rewrite H; reflexivity. Qed.
+
+Lemma p_st_sound ts a : forallb (tok_ok MDot) ts = true -> p_st ts = Some a -> ts = toks_st a /\ wf_st a = true.
+Proof.
+  intros Hok H. unfold p_st in H.
+  destruct ts as [|t r]; [discriminate|]. destruct t as [x| | | | |]; try discriminate.
+  destruct r as [|t2 r2].
+  - inversion H; subst. simpl in Hok. bsplit. auto.
+  - destruct t2 as [| | |w| |]; try discriminate. destruct r2; [|discriminate].
+    simpl in Hok. bsplit.
+    destruct (String.eqb_spec w "pos"); [subst w; inversion H; subst; auto|].
+    destruct (String.eqb_spec w "coord"); [subst w; inversion H; subst; auto|discriminate].
+Qed.
+
+Theorem st_parse_print a ws : wf_st a = true -> blanks ws = true -> parse_st (print_st a ws) = Some a.
+Proof. apply (top_parse_print MDot toks_st p_st wf_st good_st p_st_complete). Qed.
+
+Theorem st_parse_sound s a : parse_st s = Some a ->
+  wf_st a = true /\ exists ws, blanks ws = true /\ List.length ws = S (List.length (toks_st a)) /\ s = print_st a ws.
+Proof. apply (top_parse_sound MDot toks_st p_st wf_st). exact p_st_sound. Qed.
+
+(* ------------------------------------------------------------------ level names *)
+
+Lemma p_lv_complete a : wf_lv a = true -> p_lv (toks_lv a) = Some a.
+Proof. intros _. destruct a; reflexivity. Qed.
+
+Lemma good_lv a : wf_lv a = true -> good MRange (toks_lv a) = true.
+Proof. destruct a; simpl; intros H; bsplit; unfold good; simpl; repeat match goal with E : _ = true |- _ => rewrite E; clear E end; reflexivity. Qed.
+
+Lemma p_lv_sound ts a : forallb (tok_ok MRange) ts = true -> p_lv ts = Some a -> ts = toks_lv a /\ wf_lv a = true.
+Proof.
+  intros Hok H. unfold p_lv in H. crunch H; inversion H; subst; simpl in Hok; bsplit; (split; [reflexivity|simpl; bsplit; auto]).
+Qed.
+
+Theorem lv_parse_print a ws : wf_lv a = true -> blanks ws = true -> parse_lv (print_lv a ws) = Some a.
+Proof. apply (top_parse_print MRange toks_lv p_lv wf_lv good_lv p_lv_complete). Qed.
+
+Theorem lv_parse_sound s a : parse_lv s = Some a ->
+  wf_lv a = true /\ exists ws, blanks ws = true /\ List.length ws = S (List.length (toks_lv a)) /\ s = print_lv a ws.
+Proof. apply (top_parse_sound MRange toks_lv p_lv wf_lv). exact p_lv_sound. Qed.
